@@ -1,4 +1,5 @@
 SPECIFICATION Spec
 CONSTANTS
+  HeaderWidth = 6
   MaxWidth = 3
 INVARIANT Neg_AlwaysAccepts
